@@ -114,4 +114,71 @@ func c15APIUse(r *Run) {
 		}
 		rig.Close()
 	}
+	// the connection fails (read side and write side) while streams are sending and receiving and unary
+	// calls are being made: the error paths of the multiplexer run concurrently with its read loop's end
+	for i, n := 0, r.Scale(20, 200); i < n; i++ {
+		r.Progress("apiuse.connfail", i)
+		rig := NewRig(RigOpt{Serialise: i%2 == 0})
+		rig.Impl.SetUnary(func(ctx context.Context, req []byte) ([]byte, error) { return req, nil })
+		rig.Impl.SetStream(func(method string, ss grpc.ServerStream) error {
+			for {
+				b, err := recvB(ss)
+				if err != nil {
+					return nil
+				}
+				if sendB(ss, b) != nil {
+					return nil
+				}
+			}
+		})
+		var wg sync.WaitGroup
+		for k := 0; k < 3; k++ {
+			cs, err := rig.CC.NewStream(context.Background(), descBidi, mBidi)
+			if err != nil {
+				continue
+			}
+			wg.Add(2)
+			go func() {
+				defer wg.Done()
+				for j := 0; j < 50; j++ {
+					if sendB(cs, []byte("m")) != nil {
+						break
+					}
+				}
+				sendB(cs, []byte("again"))
+				cs.CloseSend()
+			}()
+			go func() {
+				defer wg.Done()
+				for {
+					if _, err := recvB(cs); err != nil {
+						break
+					}
+				}
+				cs.Trailer()
+			}()
+		}
+		wg.Add(1)
+		go func() {
+			defer wg.Done()
+			for j := 0; j < 20; j++ {
+				if _, err := callUnary(context.Background(), rig.CC, []byte("u")); err != nil {
+					break
+				}
+			}
+			callUnary(context.Background(), rig.CC, []byte("after"))
+			rig.CC.NewStream(context.Background(), descBidi, mBidi)
+		}()
+		if i%3 != 0 {
+			rig.CEnd.FailWrite(errInjectedWrite)
+		}
+		rig.CEnd.FailRead(errInjectedRead)
+		if i%3 == 0 {
+			rig.CEnd.FailWrite(errInjectedWrite)
+		}
+		wg.Wait()
+		rig.Close()
+		r.Eval(fmt.Sprintf("apiuse/connfail/%d", i), true)
+		r.Count("apiuse.connfail")
+	}
 }
